@@ -652,3 +652,34 @@ func (h *H) outboundStoreEmpty() bool {
 	}
 	return true
 }
+
+// releaseKind releases the oldest owed response of one drawn kind. Brokers owe
+// order per kind of acknowledgement only (MQTT-4.6.0-2/3/4), not across kinds.
+func (h *H) releaseKind(rt *rapid.T) bool {
+	c := h.Current()
+	if c == nil {
+		return false
+	}
+	owed := c.Owed()
+	var kinds []byte
+	seen := map[byte]bool{}
+	for _, o := range owed {
+		if !seen[o.Kind] && o.Kind != refmqtt.CONNACK {
+			seen[o.Kind] = true
+			kinds = append(kinds, o.Kind)
+		}
+	}
+	if len(kinds) == 0 {
+		return false
+	}
+	kind := kinds[rapid.IntRange(0, len(kinds)-1).Draw(rt, "ackKind")]
+	for i, o := range owed {
+		if o.Kind == kind {
+			c.Release(i)
+			h.Act("release %s (oldest of its kind, %d owed)", o, len(owed))
+			break
+		}
+	}
+	h.settleInbound()
+	return true
+}
